@@ -147,3 +147,5 @@ func ghost_rvStr(v reflect.Value) string {
 
 func ghost_rvCanAddr(v reflect.Value) bool { return v.CanAddr() }
 func ghost_rvCanSet(v reflect.Value) bool  { return v.CanSet() }
+
+func ghost_rtKey(t reflect.Type) reflect.Type { return t.Key() }
